@@ -621,7 +621,7 @@ or control character; distinct by (position, backend, name)."
         .into();
     ctx.domain_restrictions.push("identifiers are non-empty and contain no NUL (no engine can represent them)".into());
     ctx.domain_restrictions.push("positions that a backend documents as unsupported (panic arm) or omits by design (SQLite locks, MySQL RETURNING / conflict target) are not generated for it".into());
-    ctx.domain_restrictions.push("unquoted-by-design positions (Func::cust, Keyword::Custom, ColumnType::Custom, IndexType::Custom) are out of scope".into());
+    ctx.domain_restrictions.push("unquoted-by-design positions (Func::cust, Keyword::Custom, ColumnType::Custom, IndexType::Custom) are out of scope; derived identifiers are covered by a fixed set of 29 derive(Iden) / derive(IdenStatic) identifiers compiled into the harness (part derived-idens) and, over generated programs, by C19".into());
     let max_len = ctx.tier.pick(2, 3);
     for d in DIALECTS {
         let poss: Vec<Pos> = ALL_POS.iter().copied().filter(|p| applicable(*p, d)).collect();
@@ -636,6 +636,7 @@ or control character; distinct by (position, backend, name)."
     }
     let n = ctx.tier.pick(150_000, 3_000_000);
     ctx.run_proptest("random", n, &case_strategy, &check);
+    run_derived(ctx);
     for p in ctx.parts.iter_mut() {
         if p.kind == "exhaustive" {
             p.exhaustive = true;
@@ -645,7 +646,229 @@ or control character; distinct by (position, backend, name)."
     ctx.extra.insert("positions".into(), serde_json::json!(ALL_POS.len()));
 }
 
-pub fn replay(_part: &str, case: &J, obs: &mut Obs) -> R {
+pub fn replay(part: &str, case: &J, obs: &mut Obs) -> R {
+    if part == "derived-idens" {
+        let c: DerivedCase = from_case(case)?;
+        return check_derived(&c, obs);
+    }
     let c: Case = from_case(case)?;
     check(&c, obs)
+}
+
+// ------------------------------------------------------------------------- derived identifiers
+//
+// Identifiers produced by `#[derive(Iden)]` / `#[derive(IdenStatic)]` take a quoting *fast path* generated
+// by the derive macro. The types below are compiled with the harness against the working tree's derive crate,
+// so a change to the macro changes what they render. Each identifier is rendered at an identifier position
+// and must lex to exactly one identifier token that decodes to `Iden::to_string()` — the same oracle as above.
+
+mod derived {
+    use sea_query::{Iden, IdenStatic};
+
+    #[derive(Iden, Clone, Copy)]
+    pub enum Plain {
+        Table,
+        Id,
+        FontSize,
+    }
+
+    #[derive(Iden, Clone, Copy)]
+    pub enum QuoteInMiddleVariant {
+        Table,
+        #[iden = "we\"ird`na]me"]
+        Weird,
+        Amount,
+    }
+
+    #[derive(Iden, Clone, Copy)]
+    pub enum QuoteInFirstVariant {
+        #[iden = "a\"b"]
+        First,
+        Second,
+        Third,
+    }
+
+    #[derive(Iden, Clone, Copy)]
+    pub enum QuoteInLastVariant {
+        Table,
+        Plain,
+        #[iden(rename = "back`tick")]
+        Last,
+    }
+
+    #[derive(Iden, Clone, Copy)]
+    #[iden = "audit\"log`v2"]
+    pub enum ContainerRenameWithQuotes {
+        Table,
+        Id,
+        CreatedAt,
+    }
+
+    #[derive(Iden, Clone, Copy)]
+    #[iden(rename = "plain_container")]
+    pub enum ContainerRenamePlain {
+        Table,
+        #[iden = "x\"y"]
+        Odd,
+        Id,
+    }
+
+    #[derive(IdenStatic, Clone, Copy)]
+    pub enum StaticWithQuotes {
+        Table,
+        #[iden = "s\"t`u"]
+        Odd,
+        Tail,
+    }
+
+    #[derive(IdenStatic, Clone, Copy)]
+    #[iden = "st\"at`ic"]
+    pub enum StaticContainerRename {
+        Table,
+        Id,
+    }
+
+    #[derive(Iden, Clone, Copy)]
+    #[iden = "unit\"struct`name"]
+    pub struct UnitWithQuotes;
+
+    #[derive(Iden, Clone, Copy)]
+    pub struct UnitPlain;
+
+    #[derive(Iden, Clone, Copy)]
+    pub enum SpacesAndDots {
+        #[iden = "has space"]
+        A,
+        #[iden = "has.dot"]
+        B,
+        #[iden = "semi;colon--"]
+        C,
+        D,
+    }
+
+    pub fn all() -> Vec<(&'static str, Box<dyn Iden>)> {
+        vec![
+            ("Plain::Table", Box::new(Plain::Table)),
+            ("Plain::Id", Box::new(Plain::Id)),
+            ("Plain::FontSize", Box::new(Plain::FontSize)),
+            ("QuoteInMiddleVariant::Table", Box::new(QuoteInMiddleVariant::Table)),
+            ("QuoteInMiddleVariant::Weird", Box::new(QuoteInMiddleVariant::Weird)),
+            ("QuoteInMiddleVariant::Amount", Box::new(QuoteInMiddleVariant::Amount)),
+            ("QuoteInFirstVariant::First", Box::new(QuoteInFirstVariant::First)),
+            ("QuoteInFirstVariant::Second", Box::new(QuoteInFirstVariant::Second)),
+            ("QuoteInFirstVariant::Third", Box::new(QuoteInFirstVariant::Third)),
+            ("QuoteInLastVariant::Table", Box::new(QuoteInLastVariant::Table)),
+            ("QuoteInLastVariant::Plain", Box::new(QuoteInLastVariant::Plain)),
+            ("QuoteInLastVariant::Last", Box::new(QuoteInLastVariant::Last)),
+            ("ContainerRenameWithQuotes::Table", Box::new(ContainerRenameWithQuotes::Table)),
+            ("ContainerRenameWithQuotes::Id", Box::new(ContainerRenameWithQuotes::Id)),
+            ("ContainerRenameWithQuotes::CreatedAt", Box::new(ContainerRenameWithQuotes::CreatedAt)),
+            ("ContainerRenamePlain::Table", Box::new(ContainerRenamePlain::Table)),
+            ("ContainerRenamePlain::Odd", Box::new(ContainerRenamePlain::Odd)),
+            ("ContainerRenamePlain::Id", Box::new(ContainerRenamePlain::Id)),
+            ("StaticWithQuotes::Table", Box::new(StaticWithQuotes::Table)),
+            ("StaticWithQuotes::Odd", Box::new(StaticWithQuotes::Odd)),
+            ("StaticWithQuotes::Tail", Box::new(StaticWithQuotes::Tail)),
+            ("StaticContainerRename::Table", Box::new(StaticContainerRename::Table)),
+            ("StaticContainerRename::Id", Box::new(StaticContainerRename::Id)),
+            ("UnitWithQuotes", Box::new(UnitWithQuotes)),
+            ("UnitPlain", Box::new(UnitPlain)),
+            ("SpacesAndDots::A", Box::new(SpacesAndDots::A)),
+            ("SpacesAndDots::B", Box::new(SpacesAndDots::B)),
+            ("SpacesAndDots::C", Box::new(SpacesAndDots::C)),
+            ("SpacesAndDots::D", Box::new(SpacesAndDots::D)),
+        ]
+    }
+
+    pub fn static_names() -> Vec<(&'static str, &'static str, String)> {
+        vec![
+            ("StaticWithQuotes::Odd", StaticWithQuotes::Odd.as_str(), Iden::to_string(&StaticWithQuotes::Odd)),
+            ("StaticWithQuotes::Table", StaticWithQuotes::Table.as_str(), Iden::to_string(&StaticWithQuotes::Table)),
+            ("StaticContainerRename::Table", StaticContainerRename::Table.as_str(), Iden::to_string(&StaticContainerRename::Table)),
+        ]
+    }
+}
+
+#[derive(Serialize, Deserialize, Clone, Debug, PartialEq, Eq, Hash)]
+pub struct DerivedCase {
+    pub which: usize,
+    pub dialect: Dialect,
+    /// 0 = column, 1 = table, 2 = alias
+    pub position: u8,
+}
+
+pub fn check_derived(c: &DerivedCase, obs: &mut Obs) -> R {
+    let all = derived::all();
+    let (label, iden) = &all[c.which % all.len()];
+    let d = c.dialect;
+    let name = iden.to_string();
+    // a second, independently allocated identifier of the same type is not available for dyn Iden: render through SeaRc
+    let dynid: DynIden = SeaRc::new(DerivedHolder(name.clone(), label));
+    let _ = dynid;
+    let sql = guard("render-derived", || {
+        let quote = with_backend!(d, b => b.quote());
+        let mut s = String::new();
+        iden.prepare(&mut s, quote);
+        match c.position % 3 {
+            0 => format!("SELECT {s} FROM {}", lex::enc_ident(d, "t")),
+            1 => format!("SELECT {} FROM {s}", lex::enc_ident(d, "c")),
+            _ => format!("SELECT {} AS {s} FROM {}", lex::enc_ident(d, "c"), lex::enc_ident(d, "t")),
+        }
+    })?;
+    obs.note(sql.clone());
+    let sig = format!("{}/derived/{}", d.name(), label.split("::").next().unwrap_or(label));
+    let toks = match lex::lex(d, &sql) {
+        Ok(t) => t,
+        Err(e) => return fail(format!("{sig}/lex-error"), format!("{label} (name {name:?}) is prepared into {sql:?}: {e:?}")),
+    };
+    let expected_len = if c.position % 3 == 2 { 6 } else { 4 };
+    let idents: Vec<&str> = toks.iter().filter_map(|t| if let Tok::Ident(s) = &t.tok { Some(s.as_str()) } else { None }).collect();
+    if toks.len() != expected_len || !idents.contains(&name.as_str()) {
+        return fail(format!("{sig}/decoded-name"), format!("{label} spells {name:?} but its prepared form in {sql:?} lexes to {}", lex::show(&toks)));
+    }
+    // the derive's fast path must agree with the general quoting of the same name
+    let general = guard("alias-prepare", || {
+        let quote = with_backend!(d, b => b.quote());
+        let mut s = String::new();
+        Alias::new(name.clone()).prepare(&mut s, quote);
+        s
+    })?;
+    let mut fast = String::new();
+    iden.prepare(&mut fast, with_backend!(d, b => b.quote()));
+    if fast != general {
+        return fail(format!("{sig}/fast-path-differs"), format!("{label}: prepare() gives {fast:?}, the general quoting of {name:?} gives {general:?}"));
+    }
+    for (l, as_str, to_string) in derived::static_names() {
+        if as_str != to_string {
+            return fail(format!("{}/derived/as_str", d.name()), format!("{l}: as_str {as_str:?} != to_string {to_string:?}"));
+        }
+    }
+    if name.chars().any(|ch| matches!(ch, '"' | '`' | ']' | ' ' | '.' | ';')) {
+        obs.nontrivial(&(label, d, c.position % 3));
+        obs.label("derived-with-special");
+    } else {
+        obs.label("derived-plain");
+    }
+    Ok(())
+}
+
+struct DerivedHolder(String, &'static str);
+impl Iden for DerivedHolder {
+    fn unquoted(&self, s: &mut dyn std::fmt::Write) {
+        let _ = self.1;
+        write!(s, "{}", self.0).unwrap();
+    }
+}
+
+pub fn run_derived(ctx: &mut Ctx) {
+    let n = derived::all().len() as u64;
+    ctx.run_indexed(
+        "derived-idens",
+        n * 9,
+        &|i| DerivedCase { which: (i / 9) as usize, dialect: DIALECTS[(i % 3) as usize], position: ((i / 3) % 3) as u8 },
+        &check_derived,
+    );
+    if let Some(p) = ctx.parts.last_mut() {
+        p.exhaustive = true;
+    }
 }
